@@ -367,3 +367,38 @@ package node
 //@   ensures (!proceed || constraintErr != nil) ==> result == constraintErr && fieldPostChecks == old(fieldPostChecks) && fieldWrites == old(fieldWrites)
 //@   ensures result == nil && proceed && constraintErr == nil ==> fieldPostChecks == old(fieldPostChecks) + 1
 //@   ensures fieldWrites == old(fieldWrites)
+
+// ---- C13/C08: request paths ---------------------------------------------------------------------------------
+// no path text can crash the parser; every segment it returns names a schema node, and only list segments carry keys
+//@ func NewValuesByString(m []meta.Leafable, objs ...string) ([]val.Value, error)
+//@   mode int
+//@   property C13
+//@   requires forall k int :: 0 <= k && k < len(m) ==> m[k] != nil
+//@   assigns nothing
+//@   loop 1 invariant 0 <= i && i <= l && l <= len(m) && l <= len(objs) && len(vals) == len(m)
+//@   loop 1 decreases l - i
+//@   ensures result1 == nil ==> len(result0) == len(m)
+
+//@ func NewValues(m []meta.Leafable, objs ...interface{}) ([]val.Value, error)
+//@   mode int
+//@   property C13
+//@   requires forall k int :: 0 <= k && k < len(m) ==> m[k] != nil
+//@   assigns nothing
+//@   loop 1 invariant -1 <= rangeindex && rangeindex < len(objs) && len(objs) <= len(m) && len(vals) == len(m)
+//@   loop 1 decreases len(objs) - rangeindex
+//@   ensures result1 == nil ==> len(result0) == len(m)
+
+//@ pure keyMetaOK(l *meta.List) bool
+//@ func parseUrlPath(pathStr string, m meta.Definition) ([]*Path, error)
+//@   mode int
+//@   property C13 C08
+//@   requires m != nil
+//@   requires forall q *meta.List :: q != nil ==> (forall k int :: 0 <= k && k < len(q.keyMeta) ==> q.keyMeta[k] != nil)
+//@   loop 1 invariant -1 <= rangeindex && rangeindex < len(segments) && p != nil && p.Meta != nil
+//@   loop 1 invariant forall k int :: 0 <= k && k < len(path) ==> path[k] != nil && path[k].Meta != nil && (len(path[k].Key) > 0 ==> dyn(path[k].Meta) == *meta.List)
+//@   loop 1 decreases len(segments) - rangeindex
+//@   loop 2 invariant -1 <= rangeindex$2
+//@   loop 2 invariant rangeindex$2 < len(keyStrs)
+//@   loop 2 invariant p != nil && p.Meta != nil
+//@   loop 2 decreases len(keyStrs) - rangeindex$2
+//@   ensures result1 == nil ==> (forall k int :: 0 <= k && k < len(result0) ==> result0[k] != nil && result0[k].Meta != nil && (len(result0[k].Key) > 0 ==> dyn(result0[k].Meta) == *meta.List))
